@@ -253,13 +253,27 @@ func loopInvariant(lp *Loop, v ssa.Value) bool {
 //	for i := range s            header: inc = phi(-1, inc) + 1; if inc < bound   (index = inc, first = 0)
 //	for i := c; i < bound; i++  header: i = phi(c, i + 1);      if i < bound     (index = i,   first = c)
 func indexLoopInfo(lp *Loop) (idx ssa.Value, start int64, bound ssa.Value, ok bool) {
+	idx, sv, off, bound, ok := indexLoopInfoV(lp)
+	if !ok {
+		return nil, 0, nil, false
+	}
+	c, isC := constInt(sv)
+	if !isC {
+		return nil, 0, nil, false
+	}
+	return idx, c + off, bound, true
+}
+
+// indexLoopInfoV: like indexLoopInfo, but the first value may be any loop-invariant value:
+// the index starts at startV + off.
+func indexLoopInfoV(lp *Loop) (idx ssa.Value, startV ssa.Value, off int64, bound ssa.Value, ok bool) {
 	iff, isIf := lp.Header.Instrs[len(lp.Header.Instrs)-1].(*ssa.If)
 	if !isIf {
-		return nil, 0, nil, false
+		return nil, nil, 0, nil, false
 	}
 	cmp, isB := iff.Cond.(*ssa.BinOp)
 	if !isB {
-		return nil, 0, nil, false
+		return nil, nil, 0, nil, false
 	}
 	x, y := cmp.X, cmp.Y
 	switch cmp.Op {
@@ -267,10 +281,10 @@ func indexLoopInfo(lp *Loop) (idx ssa.Value, start int64, bound ssa.Value, ok bo
 	case token.GTR:
 		x, y = y, x
 	default:
-		return nil, 0, nil, false
+		return nil, nil, 0, nil, false
 	}
 	if !loopInvariant(lp, y) || !lp.Body[lp.Header.Succs[0]] {
-		return nil, 0, nil, false
+		return nil, nil, 0, nil, false
 	}
 	isInc := func(v ssa.Value, ph *ssa.Phi) bool {
 		b, ok := v.(*ssa.BinOp)
@@ -280,46 +294,53 @@ func indexLoopInfo(lp *Loop) (idx ssa.Value, start int64, bound ssa.Value, ok bo
 		c, ok := constInt(b.Y)
 		return ok && c == 1
 	}
-	phiOK := func(ph *ssa.Phi, inc ssa.Value) (int64, bool) {
+	phiOK := func(ph *ssa.Phi, inc ssa.Value) (ssa.Value, bool) {
 		if ph.Block() != lp.Header {
-			return 0, false
+			return nil, false
 		}
-		var c0 int64
-		seenC := false
-		for _, e := range ph.Edges {
-			if c, isC := constInt(e); isC {
-				if seenC && c != c0 {
-					return 0, false
+		var init ssa.Value
+		for i, e := range ph.Edges {
+			if lp.Body[ph.Block().Preds[i]] {
+				// loop-carried edge
+				if inc != nil {
+					if e != inc {
+						return nil, false
+					}
+				} else if !isInc(e, ph) {
+					return nil, false
 				}
-				c0, seenC = c, true
 				continue
 			}
-			if inc != nil {
-				if e != inc {
-					return 0, false
-				}
-			} else if !isInc(e, ph) {
-				return 0, false
+			if !loopInvariant(lp, e) {
+				return nil, false
 			}
+			if init != nil && init != e {
+				ci, ok1 := constInt(init)
+				ce, ok2 := constInt(e)
+				if !ok1 || !ok2 || ci != ce {
+					return nil, false
+				}
+			}
+			init = e
 		}
-		return c0, seenC
+		return init, init != nil
 	}
 	// range shape
 	if inc, isBin := x.(*ssa.BinOp); isBin && inc.Op == token.ADD {
 		if ph, isPhi := inc.X.(*ssa.Phi); isPhi && isInc(inc, ph) {
-			if c0, ok := phiOK(ph, inc); ok {
-				return inc, c0 + 1, y, true
+			if init, ok := phiOK(ph, inc); ok {
+				return inc, init, 1, y, true
 			}
 		}
-		return nil, 0, nil, false
+		return nil, nil, 0, nil, false
 	}
 	// three-clause shape
 	if ph, isPhi := x.(*ssa.Phi); isPhi {
-		if c0, ok := phiOK(ph, nil); ok {
-			return ph, c0, y, true
+		if init, ok := phiOK(ph, nil); ok {
+			return ph, init, 0, y, true
 		}
 	}
-	return nil, 0, nil, false
+	return nil, nil, 0, nil, false
 }
 
 // rangeIndexLoop: `for i := range s` / `for i := 0; i < len(s); i++` shapes with a monotone counter compared to an invariant bound.
@@ -1032,9 +1053,37 @@ func checkWindow(r *Run, rc *RuleCtx, cl *closures, sums map[*ssa.Function]*IntS
 				}
 				rc.Instance("initial window "+exprDepth(e, 0), true, map[string]string{"initial_window": exprDepth(e, 0)})
 			} else {
-				// step: next window = base[padded:] where base is window[4:]
-				if nsl, ok := e.(*ssa.Slice); ok && nsl.High == nil && nsl.Low != nil && nsl.X == ssa.Value(base) {
-					if c, ok := nsl.Low.(*ssa.Call); ok {
+				// step: the next window starts 4 + padded(length) bytes into this one, in one reslice
+				// (window[4+p:]) or two (window[4:][p:]), open-ended
+				var konst int64
+				var terms []ssa.Value
+				var split func(v ssa.Value)
+				split = func(v ssa.Value) {
+					v = stripConvs(v)
+					if c, ok := constInt(v); ok {
+						konst += c
+						return
+					}
+					if b, ok := v.(*ssa.BinOp); ok && b.Op == token.ADD {
+						split(b.X)
+						split(b.Y)
+						return
+					}
+					terms = append(terms, v)
+				}
+				okChain := true
+				cur := canonPhi(e)
+				for i := 0; i < 4 && cur != ssa.Value(ph); i++ {
+					nsl, ok := cur.(*ssa.Slice)
+					if !ok || nsl.High != nil || nsl.Low == nil {
+						okChain = false
+						break
+					}
+					split(nsl.Low)
+					cur = canonPhi(nsl.X)
+				}
+				if okChain && cur == ssa.Value(ph) && konst == 4 && len(terms) == 1 {
+					if c, ok := terms[0].(*ssa.Call); ok {
 						if sc := c.Call.StaticCallee(); sc != nil && sums[sc] != nil && len(c.Call.Args) == 1 && pr.lin(c.Call.Args[0]) == pr.lin(sl.High) {
 							stepOK = true
 						}
